@@ -88,7 +88,8 @@ def gen_cases(tier, seed):
         a = sep_a.join(la) + rnd.choice(["", sep_a])
         b = sep_b.join(lb) + rnd.choice(["", sep_b])
         ctx = rnd.randint(0, 3)
-        cases.append({"a": a, "b": b, "ctx": ctx, "emit": True})
+        name = rnd.choice(["src/x.rs", "src/a&b.rs", "d<1>/m.rs", 'q"uote.rs', "it's.rs", "é/中.rs"])
+        cases.append({"a": a, "b": b, "ctx": ctx, "emit": True, "name": name})
     return cases
 
 
@@ -170,6 +171,9 @@ def oracle(case, r):
         xml = em["checkstyle"]["out"]
         try:
             root = ET.fromstring(xml)
+            fe = root.find("./file")
+            if fe is None or fe.get("name") != case.get("name", "src/x.rs"):
+                bad.append(("checkstyle_name", "file name attribute %r" % (fe.get("name") if fe is not None else None)))
             errs = root.findall("./file/error")
             n_exp = sum(len(c[2]) for c in ml)
             if len(errs) != n_exp:
@@ -181,7 +185,7 @@ def oracle(case, r):
                 if norm_attr(want) != msg:
                     bad.append(("checkstyle_line", "error line %d message %r, formatted line is %r" % (n, msg, want)))
         except ET.ParseError as e:
-            forbidden = any((ord(ch) < 32 and ch not in "\t\n\r") for ch in b)
+            forbidden = any((ord(ch) < 32 and ch not in "\t\n\r") for c in ml for l in c[2] for ch in l)
             bad.append(("checkstyle_forbidden_char" if forbidden else "checkstyle_wellformed",
                         "checkstyle document not well-formed: %s" % e))
         # modified-lines emitter prints the same report
